@@ -3,7 +3,7 @@
    operator of Bin.v; at every step of the window the samples are those of the
    reference engine's VectorBinop applied to the reference instant selections
    (Select.select_step, see C01_leaf_is_reference_selection). *)
-From Coq Require Import List ZArith NArith Bool Lia.
+From Coq Require Import List ZArith NArith Bool Lia Permutation.
 From Verif Require Import Base Grid Select SelectProofs Shard SelectorProofs Exec Compose StreamWF Agg Func Bin BinProofs.
 Import ListNotations.
 Open Scope Z_scope.
@@ -82,7 +82,7 @@ Section BinaryOverSelectors.
   (* C01 for L op R over selectors: for every shard count, batch size and window,
      the engine produces one vector of samples per grid step, and at every step at
      which the reference engine's VectorBinop succeeds on the reference instant
-     selections, the engine's samples are exactly the reference's. *)
+     selections, the engine's samples are a permutation of the reference's. *)
   Theorem binary_over_selectors_matches_reference cf w :
     (0 < c_shards cf)%nat -> (0 < c_batch cf)%nat -> 0 <= c_lookback cf -> wf_window w ->
     Forall sorted_ts lsers -> Forall sorted_ts rsers ->
@@ -95,7 +95,7 @@ Section BinaryOverSelectors.
       map fst outs = grid w /\
       forall t out, In (t, out) outs ->
         forall ref_out, reference_binary (c_lookback cf) t = Some ref_out ->
-        forall m v, In (m, v) out <-> In (m, v) ref_out.
+        Permutation out ref_out.
   Proof.
     intros HN HB Hlb Hw Hsl Hsr Hll Hlr Hstart HA Hincl.
     unfold engine_binary.
@@ -115,9 +115,9 @@ Section BinaryOverSelectors.
                ltac:(lia) Hinc Hgood).
     eexists. split; [reflexivity|]. split.
     - rewrite !map_map. simpl. rewrite map_id. reflexivity.
-    - intros t out Hin ref_out Href m v. rewrite map_map in Hin. apply in_map_iff in Hin.
+    - intros t out Hin ref_out Href. rewrite map_map in Hin. apply in_map_iff in Hin.
       destruct Hin as [t' [Heq _]]. simpl in Heq. inversion Heq; subst t out. clear Heq.
-      apply (matches_reference_any Z op b2v on ml incl c return_bool op_drops_name llabels rlabels HA Hincl
+      apply (join_step_permutation Z op b2v on ml incl c return_bool op_drops_name 0 llabels rlabels HA Hincl
                (step_at (c_lookback cf) t') ref_out).
       + apply step_at_good; assumption.
       + exact Href.
